@@ -3,7 +3,9 @@ package props
 import (
 	"bytes"
 	"fmt"
+	"hash/fnv"
 	"reflect"
+	"sort"
 
 	"free5gclib/aper"
 	"free5gclib/ngap"
@@ -211,7 +213,7 @@ func ngapPrimitiveSweep(ctx *Ctx, prop string) {
 					vals[lb+1<<k] = true
 				}
 				cl := fmt.Sprintf("INTEGER/range=%s/ext=%v", rangeClass(rg), ext)
-				for v := range vals {
+				for _, v := range sortedI64(vals) {
 					if v >= lb && v <= ub {
 						add(primCase{typ: "#int", tag: tag, val: refper.Int(v), class: cl})
 					}
@@ -275,7 +277,7 @@ func ngapPrimitiveSweep(ctx *Ctx, prop string) {
 			}
 		}
 		cl := fmt.Sprintf("OCTET-STRING/size(%d..%d)/ext=%v", z.lb, z.ub, z.ext)
-		for n := range sizes {
+		for _, n := range sortedI64(sizes) {
 			for c := 0; c < 2; c++ {
 				add(primCase{typ: "#octets", tag: tag, val: refper.Octets(pattern(2-c, int(n))), class: cl})
 			}
@@ -336,7 +338,7 @@ func ngapPrimitiveSweep(ctx *Ctx, prop string) {
 			}
 			return refper.Bits(b, uint64(n))
 		}
-		for n := range sizes {
+		for _, n := range sortedI64(sizes) {
 			for c := 1; c <= 2; c++ {
 				add(primCase{typ: "#bits", tag: tag, val: mk(n, c), class: cl})
 			}
@@ -389,6 +391,13 @@ func ngapPrimitiveSweep(ctx *Ctx, prop string) {
 				add(primCase{typ: "[]#int", tag: tag, val: &refper.Node{Kind: "list"}, neg: true, class: "SEQUENCE-OF/below-lb"})
 			}
 		}
+	}
+	{
+		h := fnv.New64a()
+		for _, c := range cases {
+			h.Write([]byte(c.String()))
+		}
+		r.Consistent("primitive case list", fmt.Sprintf("%d cases, hash %x", len(cases), h.Sum64()))
 	}
 	ParallelFor(r, len(cases), func(l *report.Local, i int) { primRun(r, l, prop, cases[i]) })
 	r.Set("primitive_cases", len(cases))
@@ -511,4 +520,15 @@ func ngapFragmentSweep(ctx *Ctx) {
 	}
 	l.Merge()
 	r.Set("fragmented_lengths", sizes)
+}
+
+// sortedI64: the keys of a set in ascending order (case lists must be identical in every shard process; Go's map
+// iteration order is not).
+func sortedI64(m map[int64]bool) []int64 {
+	out := make([]int64, 0, len(m))
+	for k := range m {
+		out = append(out, k)
+	}
+	sort.Slice(out, func(i, j int) bool { return out[i] < out[j] })
+	return out
 }
